@@ -8,9 +8,10 @@ package observedaddrs
 // involved) is driven through its synchronous core - maybeRecordObservation (what the worker goroutine calls
 // for every identify event) and removeConn (what the Disconnected notification calls) - over every history of
 //   obs(conn, observed address)   and   close(conn)
-// of a small universe (zz_verif_c17_universe_test.go). After EVERY operation the public getters are read
-// (AddrsFor for every listen address and for every local address any connection uses; Addrs(0); Addrs(1..4))
-// and compared with what the STATEMENT allows, recomputed from the history by a label-based tracker:
+// of a small universe (zz_verif_c17_universe_test.go). After the last operation of EVERY explored history (that is,
+// on every transition of the search) the public getters are read - AddrsFor for every listen address and for
+// every local address any connection uses; Addrs(0); Addrs(1..4) - and compared with what the STATEMENT allows,
+// recomputed from the history by a label-based tracker:
 //
 //   credit[c]  = the external thin waist of the last ELIGIBLE report on c while c was open (none after close)
 //   vouch(L,X) = number of distinct observer groups among open connections c with local thin waist L, credit X
@@ -19,7 +20,7 @@ package observedaddrs
 //   tcp|udp of the connection's local address, on an open connection whose local thin waist is the thin waist of
 //   a listen address. All of that is a LABEL of the universe, not a call into the code under test.
 //
-// Oracles (implications, see the report / checks/C17.json for the mapping to the statement):
+// Oracles (implications; checks/C17.json maps them to the statement):
 //   foreign-address            a returned address is not <external thin waist of the alphabet><rest of the queried local address>
 //   below-threshold            a returned address has vouch < threshold
 //   more-than-three            more than three addresses for one local address
@@ -27,13 +28,21 @@ package observedaddrs
 //   displaced-more-observed    three are returned while a strictly more-vouched address than the last one is left out
 // Not demanded (statement says "only while"): that every address at or above the threshold IS returned. The
 // tracker still measures it (outcome class "info:under-reported"), it is never a violation.
+//
+// Cost: seqmc reaches a state by replaying its history on a fresh manager. The getters are read and checked only
+// after the LAST operation of an execution: the prefix is a history that was itself checked as a transition one
+// level earlier and the manager is deterministic. The search is level-synchronous, so "last operation" is
+// "position >= the deepest position seen so far in this search" (never skips a last operation; may re-check a
+// few prefix steps when a new level starts).
 
 import (
 	"crypto/sha256"
 	"fmt"
+	"math/bits"
 	"sort"
 	"strings"
 	"sync"
+	"sync/atomic"
 	"testing"
 
 	"github.com/libp2p/go-libp2p/x/verif/seqmc"
@@ -62,6 +71,8 @@ type c17Conn struct {
 	local    *c17Local
 	remote   ma.Multiaddr
 	group    string
+	groupIdx int
+	twIdx    int  // index of the local thin waist in c17Compiled.tws
 	atListen bool // local thin waist is the thin waist of a listen address
 }
 
@@ -71,35 +82,61 @@ type c17ObsT struct {
 	name string
 }
 
-type c17Compiled struct {
-	sc      c17Scenario
-	listen  []*c17Local
-	queries []*c17Local // every listen address + every local address a connection uses (AddrsFor is asked for each)
-	conns   []c17Conn
-	obs     []c17ObsT
-	obsAddr [][]ma.Multiaddr // [conn][obs] concrete observed multiaddr
-	// expected[query][address string] = external index: the only addresses AddrsFor(query) may ever return
-	expected []map[string]int
-	// attr[address string] = indices (into queries) of the LISTEN addresses that can account for it in Addrs(m)
-	attr       map[string][]int
-	extIdx     map[string]int // address string -> external index (same for every attribution)
-	groups     [][]int        // attribution groups: indices (into queries) of listen addresses sharing IP version, tcp|udp and rest
-	groupOf    map[string]int // address string -> attribution group
-	modelSpace int64          // product of the per-connection state counts (what closure must reach on a correct tree)
-	opsAll     []c17Op
-}
-
 type c17Op struct {
 	close bool
 	conn  int
 	obs   int
 }
 
+const c17MaxK = 4
+
+type c17Compiled struct {
+	sc       c17Scenario
+	listen   []*c17Local
+	queries  []*c17Local // every listen address + every local address a connection uses (AddrsFor is asked for each)
+	qListen  []bool
+	qTW      []int    // thin-waist index of each query
+	tws      []string // distinct local thin waists
+	conns    []c17Conn
+	obs      []c17ObsT
+	obsAddr  [][]ma.Multiaddr // [conn][obs] concrete observed multiaddr
+	obsShow  [][]string
+	clsShow  []string
+	expected []map[string]int // [query][string(address bytes)] = external index: the only addresses AddrsFor(query) may return
+	extIdx   map[string]int   // string(address bytes) -> external index, for addresses a LISTEN address can account for
+	groups   [][]int          // attribution groups: query indices of listen addresses sharing IP version, tcp|udp and rest
+	groupOf  map[string]int   // string(address bytes) -> attribution group
+	// product of the per-connection state counts (what closure must reach on a correct tree)
+	modelSpace int64
+	opsAll     []c17Op
+}
+
 func c17Compile(sc c17Scenario) *c17Compiled {
+	if sc.k > c17MaxK || sc.k > len(c17Exts) {
+		panic("c17 harness: too many externals")
+	}
 	locals := c17Locals()
-	c := &c17Compiled{sc: sc, attr: map[string][]int{}, extIdx: map[string]int{}}
+	c := &c17Compiled{sc: sc, extIdx: map[string]int{}, groupOf: map[string]int{}}
 	listenTW := map[string]bool{}
 	seenQ := map[string]bool{}
+	twIdx := map[string]int{}
+	tw := func(l *c17Local) int {
+		if i, ok := twIdx[l.tw]; ok {
+			return i
+		}
+		twIdx[l.tw] = len(c.tws)
+		c.tws = append(c.tws, l.tw)
+		return len(c.tws) - 1
+	}
+	addQuery := func(l *c17Local, listen bool) {
+		if seenQ[l.name] {
+			return
+		}
+		seenQ[l.name] = true
+		c.queries = append(c.queries, l)
+		c.qListen = append(c.qListen, listen)
+		c.qTW = append(c.qTW, tw(l))
+	}
 	for _, n := range sc.listen {
 		l := locals[n]
 		if l == nil {
@@ -107,11 +144,9 @@ func c17Compile(sc c17Scenario) *c17Compiled {
 		}
 		c.listen = append(c.listen, l)
 		listenTW[l.tw] = true
-		if !seenQ[n] {
-			seenQ[n] = true
-			c.queries = append(c.queries, l)
-		}
+		addQuery(l, true)
 	}
+	groupIdx := map[string]int{}
 	for _, d := range sc.conns {
 		l := locals[d.local]
 		if l == nil {
@@ -126,11 +161,15 @@ func c17Compile(sc c17Scenario) *c17Compiled {
 		} else if l.ipv != 4 {
 			panic("c17 harness: IPv4 remote on IPv6 local in " + sc.name)
 		}
-		c.conns = append(c.conns, c17Conn{def: d, local: l, remote: c17MustAddr(rs), group: c17Group(d.rip), atListen: listenTW[l.tw]})
-		if !seenQ[d.local] {
-			seenQ[d.local] = true
-			c.queries = append(c.queries, l)
+		g := c17Group(d.rip)
+		if _, ok := groupIdx[g]; !ok {
+			groupIdx[g] = len(groupIdx)
 		}
+		addQuery(l, false)
+		c.conns = append(c.conns, c17Conn{def: d, local: l, remote: c17MustAddr(rs), group: g, groupIdx: groupIdx[g], twIdx: tw(l), atListen: listenTW[l.tw]})
+	}
+	if len(c.conns) > 16 || len(groupIdx) > 16 || len(c.queries)*c17MaxK > 64 {
+		panic("c17 harness: scenario too large for the bit sets")
 	}
 	for i := 0; i < sc.k; i++ {
 		c.obs = append(c.obs, c17ObsT{ext: i, cls: "ext", name: c17Exts[i].name})
@@ -139,35 +178,30 @@ func c17Compile(sc c17Scenario) *c17Compiled {
 		c.obs = append(c.obs, c17ObsT{ext: -1, cls: cls, name: cls})
 	}
 	for _, cn := range c.conns {
+		id := fmt.Sprintf("%s[%s:%d->%s]", cn.def.name, cn.def.rip, cn.def.rport, cn.local.name)
 		var row []ma.Multiaddr
+		var srow []string
 		for _, o := range c.obs {
-			row = append(row, c17ObservedFor(cn.local, o.ext, o.cls))
+			a := c17ObservedFor(cn.local, o.ext, o.cls)
+			row = append(row, a)
+			as := "nil"
+			if a != nil {
+				as = a.String()
+			}
+			srow = append(srow, fmt.Sprintf("obs(%s, %s=%s)", id, o.name, as))
 		}
 		c.obsAddr = append(c.obsAddr, row)
+		c.obsShow = append(c.obsShow, srow)
+		c.clsShow = append(c.clsShow, "close("+id+")")
 	}
-	isListen := map[string]bool{}
-	for _, l := range c.listen {
-		isListen[l.name] = true
-	}
+	gid := map[string]int{}
 	for qi, q := range c.queries {
 		m := map[string]int{}
 		for i := 0; i < sc.k; i++ {
-			s := c17Canon(c17Exts[i].tw(q.ipv, q.proto) + q.rest)
-			m[s] = i
-			if isListen[q.name] {
-				c.attr[s] = append(c.attr[s], qi)
-				if old, ok := c.extIdx[s]; ok && old != i {
-					panic("c17 harness: ambiguous external index for " + s)
-				}
-				c.extIdx[s] = i
-			}
+			m[string(c17MustAddr(c17Exts[i].tw(q.ipv, q.proto)+q.rest).Bytes())] = i
 		}
 		c.expected = append(c.expected, m)
-	}
-	c.groupOf = map[string]int{}
-	gid := map[string]int{}
-	for qi, q := range c.queries {
-		if !isListen[q.name] {
+		if !c.qListen[qi] {
 			continue
 		}
 		gk := fmt.Sprintf("%d/%s/%s", q.ipv, q.proto, q.rest)
@@ -178,11 +212,12 @@ func c17Compile(sc c17Scenario) *c17Compiled {
 			c.groups = append(c.groups, nil)
 		}
 		c.groups[g] = append(c.groups[g], qi)
-		for s := range c.expected[qi] {
-			if old, ok := c.groupOf[s]; ok && old != g {
-				panic("c17 harness: address " + s + " belongs to two attribution groups")
+		for s, x := range m {
+			if old, ok := c.groupOf[s]; ok && (old != g || c.extIdx[s] != x) {
+				panic("c17 harness: ambiguous attribution of an address")
 			}
 			c.groupOf[s] = g
+			c.extIdx[s] = x
 		}
 	}
 	c.modelSpace = 1
@@ -205,35 +240,39 @@ func c17Compile(sc c17Scenario) *c17Compiled {
 }
 
 func (c *c17Compiled) show(o c17Op) string {
-	cn := c.conns[o.conn]
-	id := fmt.Sprintf("%s[%s:%d->%s]", cn.def.name, cn.def.rip, cn.def.rport, cn.local.name)
 	if o.close {
-		return "close(" + id + ")"
+		return c.clsShow[o.conn]
 	}
-	a := c.obsAddr[o.conn][o.obs]
-	as := "nil"
-	if a != nil {
-		as = a.String()
-	}
-	return fmt.Sprintf("obs(%s, %s=%s)", id, c.obs[o.obs].name, as)
+	return c.obsShow[o.conn][o.obs]
+}
+
+// ---------- one search = scenario x ActivationThresh ----------
+
+type c17Search struct {
+	c     *c17Compiled
+	name  string
+	level atomic.Int64 // deepest operation position applied so far (the search is level-synchronous)
+	stats *c17Stats
 }
 
 // ---------- instance = real manager + tracker ----------
 
 type c17Inst struct {
+	s      *c17Search
 	c      *c17Compiled
 	m      *Manager
 	conns  []*c17FakeConn
 	credit []int // external index of the report currently credited to the connection per the statement, -1 none
 	closed []bool
-	hist   []string
-	// bookkeeping of the LAST applied operation (flushed into the global statistics by Close, i.e. once per
-	// transition, not once per replayed prefix step)
-	last     []string
-	lastObs  string
-	reported map[string]bool // "query|address" returned by AddrsFor after the previous operation
-	anyOut   bool            // some getter returned a non-empty answer after the last operation
-	note     *c17Info
+	ops    []c17Op
+	// vouch tables of the current tracker state, filled by tally(): bit set of observer groups / number of connections
+	grp [][c17MaxK]uint16
+	via [][c17MaxK]uint8
+	// bookkeeping of the LAST applied operation (flushed into the statistics by Spec.Close: once per transition)
+	last    []string
+	lastObs []byte
+	anyOut  bool // some getter returned a non-empty answer
+	note    *c17Info
 }
 
 type c17Info struct {
@@ -242,7 +281,8 @@ type c17Info struct {
 	desc  string
 }
 
-func c17New(c *c17Compiled) *c17Inst {
+func c17New(s *c17Search) *c17Inst {
+	c := s.c
 	listen := make([]ma.Multiaddr, len(c.listen))
 	for i, l := range c.listen {
 		listen[i] = l.addr
@@ -252,57 +292,71 @@ func c17New(c *c17Compiled) *c17Inst {
 	if err != nil {
 		panic("c17 harness: " + err.Error())
 	}
-	in := &c17Inst{c: c, m: m, reported: map[string]bool{}}
-	for _, cn := range c.conns {
-		in.conns = append(in.conns, &c17FakeConn{name: cn.def.name, local: cn.local.addr, remote: cn.remote})
-		in.credit = append(in.credit, -1)
-		in.closed = append(in.closed, false)
+	in := &c17Inst{s: s, c: c, m: m, grp: make([][c17MaxK]uint16, len(c.tws)), via: make([][c17MaxK]uint8, len(c.tws))}
+	in.conns = make([]*c17FakeConn, len(c.conns))
+	in.credit = make([]int, len(c.conns))
+	in.closed = make([]bool, len(c.conns))
+	for i, cn := range c.conns {
+		in.conns[i] = &c17FakeConn{name: cn.def.name, local: cn.local.addr, remote: cn.remote}
+		in.credit[i] = -1
 	}
 	return in
 }
 
-// vouch returns the number of distinct observer groups currently vouching for external x at local thin waist ltw.
-func (in *c17Inst) vouch(ltw string, x int) (int, []string) {
-	var groups, via []string
-	for i, cn := range in.c.conns {
-		if in.closed[i] || in.credit[i] != x || cn.local.tw != ltw {
+// tally recomputes the vouch tables from the tracker state.
+func (in *c17Inst) tally() {
+	for i := range in.grp {
+		in.grp[i] = [c17MaxK]uint16{}
+		in.via[i] = [c17MaxK]uint8{}
+	}
+	for i := range in.c.conns {
+		if in.closed[i] || in.credit[i] < 0 {
 			continue
 		}
-		via = append(via, cn.def.name)
-		dup := false
-		for _, g := range groups {
-			if g == cn.group {
-				dup = true
-			}
-		}
-		if !dup {
-			groups = append(groups, cn.group)
-		}
+		cn := &in.c.conns[i]
+		in.grp[cn.twIdx][in.credit[i]] |= 1 << uint(cn.groupIdx)
+		in.via[cn.twIdx][in.credit[i]]++
 	}
-	return len(groups), via
 }
 
-func (in *c17Inst) explain(ltw string, x int) string {
-	n, via := in.vouch(ltw, x)
-	return fmt.Sprintf("%s at %s is vouched for by %d observer group(s) via open connection(s) %v", c17Exts[x].name, ltw, n, via)
+// vouch = number of distinct observer groups vouching for external x at local thin waist tw (after tally()).
+func (in *c17Inst) vouch(tw, x int) int { return bits.OnesCount16(in.grp[tw][x]) }
+
+func (in *c17Inst) explain(tw, x int) string {
+	var via []string
+	for i, cn := range in.c.conns {
+		if !in.closed[i] && in.credit[i] == x && cn.twIdx == tw {
+			via = append(via, cn.def.name+"("+cn.group+")")
+		}
+	}
+	return fmt.Sprintf("%s at %s is vouched for by %d observer group(s) via open connection(s) %v", c17Exts[x].name, in.c.tws[tw], in.vouch(tw, x), via)
 }
 
 func (in *c17Inst) modelString() string {
 	var sb strings.Builder
 	for i, cn := range in.c.conns {
+		sb.WriteString(cn.def.name)
 		switch {
 		case in.closed[i]:
-			fmt.Fprintf(&sb, "%s:closed ", cn.def.name)
+			sb.WriteString(":closed ")
 		case in.credit[i] < 0:
-			fmt.Fprintf(&sb, "%s:- ", cn.def.name)
+			sb.WriteString(":- ")
 		default:
-			fmt.Fprintf(&sb, "%s:%s ", cn.def.name, c17Exts[in.credit[i]].name)
+			sb.WriteString(":" + c17Exts[in.credit[i]].name + " ")
 		}
 	}
 	return sb.String()
 }
 
-// white-box snapshot of the manager, canonical (maps sorted; connections by universe name). The per-observerSet
+func (in *c17Inst) history() []string {
+	out := make([]string, len(in.ops))
+	for i, o := range in.ops {
+		out[i] = in.c.show(o)
+	}
+	return out
+}
+
+// white-box snapshot of the manager, canonical (maps sorted; connections by universe index). The per-observerSet
 // cachedMultiaddrs memo is left out: it memoises the pure function (ObservedTWAddr, rest) -> Join and is never
 // read for a decision.
 func (in *c17Inst) implString() string {
@@ -310,22 +364,22 @@ func (in *c17Inst) implString() string {
 	o.mu.RLock()
 	defer o.mu.RUnlock()
 	var sb strings.Builder
-	var lks []string
+	lks := make([]string, 0, len(o.externalAddrs))
 	for lk := range o.externalAddrs {
 		lks = append(lks, lk)
 	}
 	sort.Strings(lks)
 	for _, lk := range lks {
 		fmt.Fprintf(&sb, "L%x{", lk)
-		var xks []string
+		xks := make([]string, 0, len(o.externalAddrs[lk]))
 		for xk := range o.externalAddrs[lk] {
 			xks = append(xks, xk)
 		}
 		sort.Strings(xks)
 		for _, xk := range xks {
 			s := o.externalAddrs[lk][xk]
-			fmt.Fprintf(&sb, "X%x=%s[", xk, s.ObservedTWAddr)
-			var obs []string
+			fmt.Fprintf(&sb, "X%x=%x[", xk, s.ObservedTWAddr.Bytes())
+			obs := make([]string, 0, len(s.ObservedBy))
 			for ob, n := range s.ObservedBy {
 				obs = append(obs, fmt.Sprintf("%s*%d", ob, n))
 			}
@@ -340,7 +394,7 @@ func (in *c17Inst) implString() string {
 	for i, fc := range in.conns {
 		if a, ok := o.connObservedTWAddrs[fc]; ok {
 			known++
-			fmt.Fprintf(&sb, "%d=%s,", i, a)
+			fmt.Fprintf(&sb, "%d=%x,", i, a.Bytes())
 		}
 	}
 	fmt.Fprintf(&sb, "|extra=%d|", len(o.connObservedTWAddrs)-known)
@@ -354,15 +408,41 @@ func (in *c17Inst) implString() string {
 	return sb.String()
 }
 
-// ---------- apply one operation and check every getter ----------
+// advertised returns the bit set {query*MaxK + external} of what AddrsFor currently returns (addresses outside the
+// alphabet are ignored here; the oracle reports them).
+func (in *c17Inst) advertised() uint64 {
+	var set uint64
+	for qi, q := range in.c.queries {
+		for _, a := range in.m.AddrsFor(q.addr) {
+			if x, ok := in.c.expected[qi][string(a.Bytes())]; ok {
+				set |= 1 << uint(qi*c17MaxK+x)
+			}
+		}
+	}
+	return set
+}
+
+// ---------- apply one operation; on the last operation of an execution check every getter ----------
 
 func (in *c17Inst) apply(op c17Op) error {
 	c := in.c
-	cn := c.conns[op.conn]
+	cn := &c.conns[op.conn]
 	fc := in.conns[op.conn]
-	in.hist = append(in.hist, c.show(op))
+	pos := int64(len(in.ops))
+	final := pos >= in.s.level.Load()
+	for {
+		l := in.s.level.Load()
+		if pos <= l || in.s.level.CompareAndSwap(l, pos) {
+			break
+		}
+	}
+	in.ops = append(in.ops, op)
 	in.last = in.last[:0]
 	in.note = nil
+	var before uint64
+	if final {
+		before = in.advertised()
+	}
 	prevCredit := in.credit[op.conn]
 	if op.close {
 		// the swarm marks the connection closed, then delivers Disconnected
@@ -401,43 +481,47 @@ func (in *c17Inst) apply(op c17Op) error {
 			}
 		}
 	}
-	return in.checkGetters(op, prevCredit)
+	if !final {
+		return nil
+	}
+	return in.checkGetters(op, prevCredit, before)
+}
+
+var c17NTag = map[string][]string{
+	"AddrsFor":   {"", "seen:AddrsFor/n=1", "seen:AddrsFor/n=2", "seen:AddrsFor/n=3"},
+	"Addrs(0)":   {"", "seen:Addrs(0)/n=1", "seen:Addrs(0)/n=2", "seen:Addrs(0)/n=3"},
+	"Addrs(min)": {"", "seen:Addrs(min)/n=1", "seen:Addrs(min)/n=2", "seen:Addrs(min)/n=3"},
 }
 
 // ranked checks one per-local-address list (external indices in returned order) against the statement.
-func (in *c17Inst) ranked(getter string, q *c17Local, thresh int, idx []int, raw []ma.Multiaddr) error {
+func (in *c17Inst) ranked(getter string, q *c17Local, tw, thresh int, idx []int, raw []ma.Multiaddr) error {
 	for i, x := range idx {
-		if n, _ := in.vouch(q.tw, x); n < thresh {
+		if in.vouch(tw, x) < thresh {
 			return seqmc.Violation(getter+":below-threshold", "%s for %s returned %v; #%d: %s; threshold %d. tracker: %s",
-				getter, q.addr, raw, i, in.explain(q.tw, x), thresh, in.modelString())
+				getter, q.addr, raw, i, in.explain(tw, x), thresh, in.modelString())
 		}
 	}
 	if len(idx) > 3 {
 		return seqmc.Violation(getter+":more-than-three", "%s for %s returned %d addresses: %v", getter, q.addr, len(idx), raw)
 	}
 	for i := 1; i < len(idx); i++ {
-		a, _ := in.vouch(q.tw, idx[i-1])
-		b, _ := in.vouch(q.tw, idx[i])
-		if b > a {
+		if a, b := in.vouch(tw, idx[i-1]), in.vouch(tw, idx[i]); b > a {
 			return seqmc.Violation(getter+":not-most-observed-first", "%s for %s returned %v: #%d has %d observer groups, #%d has %d. tracker: %s",
 				getter, q.addr, raw, i-1, a, i, b, in.modelString())
 		}
 	}
 	qualifying := 0
-	counts := map[int]int{}
 	for x := 0; x < in.c.sc.k; x++ {
-		n, _ := in.vouch(q.tw, x)
-		counts[x] = n
-		if n >= thresh {
+		if in.vouch(tw, x) >= thresh {
 			qualifying++
 		}
 	}
 	if len(idx) == 3 {
-		lastN := counts[idx[2]]
+		lastN := in.vouch(tw, idx[2])
 		for x := 0; x < in.c.sc.k; x++ {
-			if x != idx[0] && x != idx[1] && x != idx[2] && counts[x] > lastN {
+			if x != idx[0] && x != idx[1] && x != idx[2] && in.vouch(tw, x) > lastN {
 				return seqmc.Violation(getter+":displaced-more-observed", "%s for %s returned %v (last has %d observer groups) but left out %s with %d. tracker: %s",
-					getter, q.addr, raw, lastN, c17Exts[x].name, counts[x], in.modelString())
+					getter, q.addr, raw, lastN, c17Exts[x].name, in.vouch(tw, x), in.modelString())
 			}
 		}
 	}
@@ -449,49 +533,52 @@ func (in *c17Inst) ranked(getter string, q *c17Local, thresh int, idx []int, raw
 		}
 	}
 	if len(idx) > 0 {
-		in.last = append(in.last, fmt.Sprintf("seen:%s/n=%d", getter, len(idx)))
+		in.last = append(in.last, c17NTag[getter][len(idx)])
 		if qualifying > 3 {
 			in.last = append(in.last, "seen:"+getter+"/truncated-to-three")
 		}
-		if counts[idx[0]] != counts[idx[len(idx)-1]] {
+		if in.vouch(tw, idx[0]) != in.vouch(tw, idx[len(idx)-1]) {
 			in.last = append(in.last, "seen:"+getter+"/order-decided-by-count")
 		}
 	}
 	return nil
 }
 
-func (in *c17Inst) checkGetters(op c17Op, prevCredit int) error {
+func (in *c17Inst) checkGetters(op c17Op, prevCredit int, before uint64) error {
 	c := in.c
 	T := ActivationThresh
-	var obsKey strings.Builder
-	nowReported := map[string]bool{}
+	in.tally()
+	in.lastObs = in.lastObs[:0]
 	in.anyOut = false
+	var now uint64
+	idx := make([]int, 0, 8)
 	for qi, q := range c.queries {
 		got := in.m.AddrsFor(q.addr)
 		in.anyOut = in.anyOut || len(got) > 0
-		idx := make([]int, 0, len(got))
+		idx = idx[:0]
 		for _, a := range got {
-			s := a.String()
-			x, ok := c.expected[qi][s]
+			x, ok := c.expected[qi][string(a.Bytes())]
 			if !ok {
 				return seqmc.Violation("AddrsFor:foreign-address", "AddrsFor(%s) returned %s, which is not an eligible observed thin waist of the alphabet followed by %q (all returned: %v). tracker: %s",
-					q.addr, s, q.rest, got, in.modelString())
+					q.addr, a, q.rest, got, in.modelString())
 			}
 			idx = append(idx, x)
-			nowReported[q.name+"|"+s] = true
+			now |= 1 << uint(qi*c17MaxK+x)
+			in.lastObs = append(in.lastObs, byte('0'+x))
 		}
-		if err := in.ranked("AddrsFor", q, T, idx, got); err != nil {
+		in.lastObs = append(in.lastObs, ';')
+		if err := in.ranked("AddrsFor", q, c.qTW[qi], T, idx, got); err != nil {
 			return err
 		}
-		fmt.Fprintf(&obsKey, "%s=%v;", q.name, idx)
 		// "repeated reports from one observer group never count": a case where it mattered
 		for x := 0; x < c.sc.k; x++ {
-			n, via := in.vouch(q.tw, x)
-			if n < T && len(via) >= T {
+			if in.vouch(c.qTW[qi], x) < T && int(in.via[c.qTW[qi]][x]) >= T {
 				in.last = append(in.last, "seen:same-group-repeats-kept-below-threshold")
 			}
 		}
 	}
+	lists := make([][]int, len(c.groups))
+	raws := make([][]ma.Multiaddr, len(c.groups))
 	for _, m := range []int{0, 1, 2, 3, 4} {
 		getter, thresh := "Addrs(0)", T
 		if m > 0 {
@@ -501,24 +588,27 @@ func (in *c17Inst) checkGetters(op c17Op, prevCredit int) error {
 		in.anyOut = in.anyOut || len(got) > 0
 		// Split the flat answer by the listen addresses that can account for each address (same IP version, tcp|udp and
 		// suffix after the thin waist). Listen addresses that share all three form one attribution group.
-		lists := make([][]int, len(c.groups))
-		raws := make([][]ma.Multiaddr, len(c.groups))
+		for g := range lists {
+			lists[g], raws[g] = lists[g][:0], raws[g][:0]
+		}
+		in.lastObs = append(in.lastObs, 'A')
 		for _, a := range got {
-			s := a.String()
+			s := string(a.Bytes())
 			g, ok := c.groupOf[s]
 			if !ok {
 				return seqmc.Violation(getter+":foreign-address", "Addrs(%d) returned %s, which is not an eligible observed thin waist of the alphabet followed by the rest of a listen address (all returned: %v). tracker: %s",
-					m, s, got, in.modelString())
+					m, a, got, in.modelString())
 			}
 			lists[g] = append(lists[g], c.extIdx[s])
 			raws[g] = append(raws[g], a)
+			in.lastObs = append(in.lastObs, byte('a'+g), byte('0'+c.extIdx[s]))
 		}
 		for g, members := range c.groups {
 			// listen addresses of the group at which anything at all reaches the threshold
 			var active []int
 			for _, qi := range members {
 				for x := 0; x < c.sc.k; x++ {
-					if n, _ := in.vouch(c.queries[qi].tw, x); n >= thresh {
+					if in.vouch(c.qTW[qi], x) >= thresh {
 						active = append(active, qi)
 						break
 					}
@@ -527,25 +617,25 @@ func (in *c17Inst) checkGetters(op c17Op, prevCredit int) error {
 			switch {
 			case len(active) <= 1:
 				// at most one listen address of the group may contribute: the whole list is its list
-				q := c.queries[members[0]]
+				qi := members[0]
 				if len(active) == 1 {
-					q = c.queries[active[0]]
+					qi = active[0]
 				}
-				if err := in.ranked(getter, q, thresh, lists[g], raws[g]); err != nil {
+				if err := in.ranked(getter, c.queries[qi], c.qTW[qi], thresh, lists[g], raws[g]); err != nil {
 					return err
 				}
 			default:
 				// several listen addresses contribute and the flat answer does not say which address belongs to which:
 				// every occurrence of an address needs its own listen address at which it reaches the threshold, and
 				// there are at most three per contributing listen address. (Order is checked per address by AddrsFor.)
-				occ := map[int]int{}
+				var occ [c17MaxK]int
 				for _, x := range lists[g] {
 					occ[x]++
 				}
 				for x, n := range occ {
 					can := 0
 					for _, qi := range active {
-						if v, _ := in.vouch(c.queries[qi].tw, x); v >= thresh {
+						if in.vouch(c.qTW[qi], x) >= thresh {
 							can++
 						}
 					}
@@ -562,61 +652,47 @@ func (in *c17Inst) checkGetters(op c17Op, prevCredit int) error {
 				}
 			}
 		}
-		fmt.Fprintf(&obsKey, "A%d=%v;", m, got)
 	}
-	// informational classes about withdrawal (what the previous AddrsFor answers contained and the new ones do not)
-	withdrawn := false
-	for k := range in.reported {
-		if !nowReported[k] {
-			withdrawn = true
-		}
-	}
-	if withdrawn {
+	// informational classes about withdrawal (what AddrsFor returned before the operation and does not return now)
+	if before&^now != 0 {
 		if op.close {
 			in.last = append(in.last, "seen:close-withdrew-an-advertised-address")
 		} else {
 			in.last = append(in.last, "seen:changed-report-withdrew-an-advertised-address")
 		}
 	}
-	for k := range nowReported {
-		if !in.reported[k] {
-			in.last = append(in.last, "seen:address-became-advertised")
-			break
-		}
+	if now&^before != 0 {
+		in.last = append(in.last, "seen:address-became-advertised")
 	}
 	// Reading question recorded for the report (NOT a violation, see checks/C17.json): an ineligible, non-nil report on
 	// an open connection leaves that connection's earlier eligible report credited. Under the reading "a report is
 	// withdrawn when it changes - to anything" the address would have to disappear when the credit was decisive.
 	if !op.close && c.obs[op.obs].ext < 0 && c.obs[op.obs].cls != c17ObsNil && !in.closed[op.conn] && prevCredit >= 0 {
-		cn := c.conns[op.conn]
-		n, _ := in.vouch(cn.local.tw, prevCredit)
-		save := in.credit[op.conn]
-		in.credit[op.conn] = -1
-		without, _ := in.vouch(cn.local.tw, prevCredit)
-		in.credit[op.conn] = save
-		if n >= T && without < T {
+		cn := &c.conns[op.conn]
+		n := in.vouch(cn.twIdx, prevCredit)
+		others := 0
+		for i := range c.conns {
+			o := &c.conns[i]
+			if i != op.conn && !in.closed[i] && in.credit[i] == prevCredit && o.twIdx == cn.twIdx && o.groupIdx == cn.groupIdx {
+				others++
+			}
+		}
+		if n >= T && others == 0 && n-1 < T {
 			for qi, q := range c.queries {
-				if q.tw != cn.local.tw {
-					continue
-				}
-				for s, x := range c.expected[qi] {
-					if x == prevCredit && nowReported[q.name+"|"+s] {
-						in.last = append(in.last, "info:ineligible-report-left-decisive-earlier-report-credited")
-						if in.note == nil {
-							in.note = &c17Info{class: "info:ineligible-report-left-decisive-earlier-report-credited",
-								desc: fmt.Sprintf("after an ineligible (%s) report on %s its earlier report of %s still counts and %s stays advertised for %s with exactly %d observer groups", c.obs[op.obs].cls, cn.def.name, c17Exts[prevCredit].name, s, q.addr, n)}
-						}
+				if c.qTW[qi] == cn.twIdx && now&(1<<uint(qi*c17MaxK+prevCredit)) != 0 {
+					in.last = append(in.last, "info:ineligible-report-left-decisive-earlier-report-credited")
+					if in.note == nil {
+						in.note = &c17Info{class: "info:ineligible-report-left-decisive-earlier-report-credited",
+							desc: fmt.Sprintf("after an ineligible (%s) report on %s its earlier report of %s still counts and that address stays advertised for %s with exactly %d observer group(s) = the threshold", c.obs[op.obs].cls, cn.def.name, c17Exts[prevCredit].name, q.addr, n)}
 					}
 				}
 			}
 		}
 	}
-	in.reported = nowReported
-	in.lastObs = obsKey.String()
 	return nil
 }
 
-// ---------- global statistics (one entry per TRANSITION: recorded from Spec.Close) ----------
+// ---------- statistics (one entry per TRANSITION: recorded from Spec.Close) ----------
 
 type c17Stats struct {
 	mu       sync.Mutex
@@ -627,26 +703,33 @@ type c17Stats struct {
 }
 
 func (s *c17Stats) flush(search string, in *c17Inst) {
+	var dk [16]byte
+	if in.anyOut {
+		// distinct non-trivial case = distinct (search, tracker state, answers of all getters) with a non-empty answer
+		h := sha256.Sum256([]byte(search + "|" + in.modelString() + "|" + string(in.lastObs)))
+		copy(dk[:], h[:16])
+	}
 	s.mu.Lock()
 	defer s.mu.Unlock()
-	seen := map[string]bool{}
-	for _, k := range in.last {
-		if !seen[k] {
-			seen[k] = true
+	for i, k := range in.last {
+		dup := false
+		for _, p := range in.last[:i] {
+			if p == k {
+				dup = true
+				break
+			}
+		}
+		if !dup {
 			s.outcomes[k]++
 		}
 	}
 	if in.anyOut {
 		s.nonEmpty++
-		// distinct non-trivial case = distinct (search, tracker state, answers of all getters) with a non-empty answer
-		h := sha256.Sum256([]byte(search + "|" + in.modelString() + "|" + in.lastObs))
-		var k [16]byte
-		copy(k[:], h[:16])
-		s.distinct[k] = struct{}{}
+		s.distinct[dk] = struct{}{}
 	}
 	if in.note != nil {
 		n := *in.note
-		n.hist = append([]string(nil), in.hist...)
+		n.hist = in.history()
 		old := s.notes[n.class]
 		if old == nil || len(n.hist) < len(old.hist) || (len(n.hist) == len(old.hist) && strings.Join(n.hist, ";") < strings.Join(old.hist, ";")) {
 			s.notes[n.class] = &n
@@ -671,7 +754,7 @@ func TestVerifC17(t *testing.T) {
 	r := vrep.New("C17", "manager")
 	r.Bounds["depth"] = "closure (finite state space: per connection closed | open uncredited | open credited with one of k externals)"
 	r.Bounds["ActivationThresh"] = fmt.Sprint(threshs)
-	r.Bounds["Addrs(minObservers)"] = "0 (= ActivationThresh), 1, 2, 3, 4 read after every operation"
+	r.Bounds["Addrs(minObservers)"] = "0 (= ActivationThresh), 1, 2, 3, 4 read on every transition"
 	r.Bounds["observation classes per connection"] = "k externals (X1 plain, X2 other IP same port, X3 same IP other port, X4 = own private listen endpoint) + " + strings.Join(c17IneligibleClasses, ", ")
 	stats := &c17Stats{outcomes: map[string]int64{}, distinct: map[[16]byte]struct{}{}, notes: map[string]*c17Info{}}
 	saved := ActivationThresh
@@ -684,16 +767,16 @@ func TestVerifC17(t *testing.T) {
 		for _, cn := range c.conns {
 			cs = append(cs, fmt.Sprintf("%s=%s:%d->%s(%s,listen=%v)", cn.def.name, cn.def.rip, cn.def.rport, cn.local.name, cn.group, cn.atListen))
 		}
-		scDesc = append(scDesc, fmt.Sprintf("%s: listen=%v k=%d conns=[%s] model-states=%d ops/state<=%d", sc.name, sc.listen, sc.k, strings.Join(cs, " "), c.modelSpace, len(c.opsAll)))
+		scDesc = append(scDesc, fmt.Sprintf("%s: listen=%v k=%d conns=[%s] tracker-states=%d ops/state<=%d", sc.name, sc.listen, sc.k, strings.Join(cs, " "), c.modelSpace, len(c.opsAll)))
 		for _, th := range threshs {
 			ActivationThresh = th // package variable: set between searches only, the workers of one search just read it
-			name := fmt.Sprintf("%s T=%d", sc.name, th)
+			s := &c17Search{c: c, name: fmt.Sprintf("%s T=%d", sc.name, th), stats: stats}
 			before := stats.nonEmpty
 			sp := &seqmc.Spec[*c17Inst, c17Op]{
-				Name: name,
-				New:  func() *c17Inst { return c17New(c) },
+				Name: s.name,
+				New:  func() *c17Inst { return c17New(s) },
 				Close: func(in *c17Inst) {
-					stats.flush(name, in)
+					stats.flush(s.name, in)
 					in.m.Close() // Start was never called: cancels the context, nothing to wait for
 				},
 				Ops: func(in *c17Inst) []c17Op {
@@ -717,14 +800,14 @@ func TestVerifC17(t *testing.T) {
 				MaxStates: int(4*c.modelSpace) + 1000, // a correct tree closes at exactly modelSpace states; a broken one may not close at all
 			}
 			st := seqmc.Run(sp)
-			seqmc.Fill(r, name, st)
+			seqmc.Fill(r, s.name, st)
 			if st.Closed && st.NViolations == 0 && st.States != c.modelSpace {
 				// the implementation state is not a function of the tracker state (or the reverse): worth a note, not a verdict
-				r.Note("%s: closed at %d states, tracker space is %d", name, st.States, c.modelSpace)
+				r.Note("%s: closed at %d states, tracker space is %d", s.name, st.States, c.modelSpace)
 			}
 			if st.Closed && st.NViolations == 0 && stats.nonEmpty == before {
 				r.Flush()
-				t.Fatalf("c17 harness: search %s never saw an advertised address - vacuous", name)
+				t.Fatalf("c17 harness: search %s never saw a getter return an address - vacuous", s.name)
 			}
 		}
 	}
@@ -734,7 +817,7 @@ func TestVerifC17(t *testing.T) {
 	for k, v := range stats.outcomes {
 		r.Outcomes[k] += v
 	}
-	var classes []string
+	classes := make([]string, 0, len(stats.notes))
 	for k := range stats.notes {
 		classes = append(classes, k)
 	}
@@ -743,8 +826,8 @@ func TestVerifC17(t *testing.T) {
 		n := stats.notes[k]
 		r.Note("%s: %d transitions; shortest witness %v: %s", k, stats.outcomes[k], n.hist, n.desc)
 	}
-	if stats.outcomes["info:under-reported"] == 0 {
-		r.Note("measured, not demanded: in every transition each getter returned exactly min(3, #addresses at or above the threshold) addresses")
+	if stats.outcomes["info:under-reported"] == 0 && r.NViolations == 0 {
+		r.Note("measured, not demanded: on every transition each getter returned exactly min(3, #addresses at or above the threshold) addresses per local address")
 	}
 	stats.mu.Unlock()
 	r.Flush()
